@@ -22,8 +22,8 @@ TYPES = {
     "Constraint": {"$ghost_lastpos": True, "left": "ref:Variable", "right": "ref:Variable", "gap": "real", "equality": "bool", "active": "bool",
                    "unsatisfiable": "bool", "lm": "real?"},
     "Variable": {"desiredPosition": "real", "weight": "real", "scale": "real", "offset": "real", "node": "ref:Node",
-                 "block": "ref:Block", "cIn": "slist:ref:Constraint", "cOut": "slist:ref:Constraint"},
-    "Block": {"vars": "slist:ref:Variable", "ps": "ref:PositionStats", "posn": "real", "blockInd": "int"},
+                 "block": "ref:Block", "cIn": "slist:ref:Constraint@adj", "cOut": "slist:ref:Constraint@adj"},
+    "Block": {"vars": "slist:ref:Variable@vars", "ps": "ref:PositionStats", "posn": "real", "blockInd": "int"},
     "Blocks": {"vs": "slist:ref:Variable", "_list": "slist:ref:Block"},
     "Solver": {"vs": "slist:ref:Variable", "cs": "slist:ref:Constraint", "inactive": "slist:ref:Constraint",
                "bs": "ref:Blocks"},
@@ -287,6 +287,76 @@ def feasible(E, P, ctx, s):
     return [(P, Bool(_forall([i], body, c.t)))]
 
 
+def _has_block(E, P, v):
+    b = rd(E, P, v, "Variable", "block")
+    return z3.And(b.t != NULL, rd(E, P, b, "Block", "ps").t != NULL)
+
+
+def _in_vs(E, P, vs, v):
+    """ghost-witnessed membership of a variable in the list vs: vs[v.$vidx] is v (Variable.$vidx is the ghost inverse
+    index of an injective list, introduced by ghost_index after distinctness has been proved)"""
+    idx = z3.Select(E.heap_array(P, "Variable.$vidx", IntS), v.t)
+    return z3.And(0 <= idx, idx < E.l_len(P, vs), z3.Select(E.l_elems(P, vs), idx) == v.t)
+
+
+def vidx(E, P, ctx, v):
+    return [(P, Num(z3.Select(E.heap_array(P, "Variable.$vidx", IntS), v.t), True))]
+
+
+SPECFUNS["vidx"] = vidx
+
+
+def in_vs(E, P, ctx, vs, v):
+    return [(P, Bool(_in_vs(E, P, vs, v)))]
+
+
+def all_prewf(E, P, ctx, vs):
+    """before the blocks of a new solver exist: every allocated Constraint is an inequality between non-null variables of
+    positive scale, each of which already lives in a block (older solvers) or is an element of vs (this solver)"""
+    c = Ref(z3.Const("c!prewf", RefS), "Constraint")
+    l, r = rd(E, P, c, "Constraint", "left"), rd(E, P, c, "Constraint", "right")
+    parts = [c.t != NULL, l.t != NULL, r.t != NULL, z3.Not(rd(E, P, c, "Constraint", "equality").t)]
+    for v in (l, r):
+        parts += [rd(E, P, v, "Variable", "scale").t > 0, z3.Or(_has_block(E, P, v), _in_vs(E, P, vs, v))]
+    trig = z3.Select(E.heap_array(P, "Constraint.left", RefS), c.t)
+    return [(P, Bool(_forall([c.t], z3.Implies(z3.And(c.t != NULL, z3.Select(E.alloc_arr(P), c.t), E.type_is(P, c.t, "Constraint")),
+                                               z3.And(*parts)), trig)))]
+
+
+def none_active(E, P, ctx):
+    c = z3.Const("c!na", RefS)
+    act = z3.Select(E.heap_array(P, "Constraint.active", z3.BoolSort()), c)
+    return [(P, Bool(_forall([c], z3.Implies(z3.And(c != NULL, z3.Select(E.alloc_arr(P), c), E.type_is(P, c, "Constraint")), z3.Not(act)), act)))]
+
+
+def own_inactive(E, P, ctx, s):
+    """the constraints of this solver are not active (a new solver: Solver.__init__ de-activates them)"""
+    cs = rd(E, P, s, "Solver", "cs")
+    i = z3.Const("i!oi", IntS)
+    c = E.l_get(P, cs, i)
+    return [(P, Bool(_forall([i], z3.Implies(z3.And(0 <= i, i < E.l_len(P, cs)), z3.Not(rd(E, P, c, "Constraint", "active").t)), c.t)))]
+
+
+def blocks_kept(E, P, ctx):
+    """every variable that lived in a block still lives in one (frame of the restructuring routines)"""
+    if P.old is None:
+        raise SpecError("blocks_kept() outside a postcondition")
+    v = Ref(z3.Const("v!bk", RefS), "Variable")
+    trig = z3.Select(E.heap_array(P, "Variable.block", RefS), v.t)
+    return [(P, Bool(_forall([v.t], z3.Implies(z3.And(v.t != NULL, z3.Select(E.alloc_arr(P.old), v.t), _has_block(E, P.old, v)),
+                                               _has_block(E, P, v)), trig)))]
+
+
+def vars_in_blocks(E, P, ctx, vs):
+    i = z3.Const("i!vib", IntS)
+    v = E.l_get(P, vs, i)
+    return [(P, Bool(_forall([i], z3.Implies(z3.And(0 <= i, i < E.l_len(P, vs)),
+                                             z3.And(v.t != NULL, _has_block(E, P, v), rd(E, P, v, "Variable", "scale").t > 0)), v.t)))]
+
+
+SPECFUNS["vars_in_blocks"] = vars_in_blocks
+SPECFUNS.update({"in_vs": in_vs, "all_prewf": all_prewf, "none_active": none_active, "own_inactive": own_inactive,
+                 "blocks_kept": blocks_kept})
 SPECFUNS.update({"all_wf": all_wf, "nonnull": nonnull, "inv_cs_except": inv_cs_except, "most_violated": most_violated,
                  "feasible": feasible})
 
@@ -294,13 +364,14 @@ SPECFUNS.update({"all_wf": all_wf, "nonnull": nonnull, "inv_cs_except": inv_cs_e
 # equality/unsatisfiable, Variable.scale/weight/desiredPosition/node/cIn/cOut)
 RESTRUCT = ["Constraint.active", "Constraint.lm", "Constraint.lm$set", "Variable.offset", "Variable.block",
             "Block.vars", "Block.ps", "Block.posn", "Block.blockInd", "PositionStats.scale", "PositionStats.AB",
-            "PositionStats.AD", "PositionStats.A2", "Blocks._list", "Blocks.vs",
-            "list.len.ref~Variable", "list.elems.ref~Variable", "list.len.ref~Block", "list.elems.ref~Block"]
+            "PositionStats.AD", "PositionStats.A2", "Blocks._list",
+            "list.len.ref~Variable@vars", "list.elems.ref~Variable@vars", "list.len.ref~Block", "list.elems.ref~Block"]
 CLISTS = ["list.len.ref~Constraint", "list.elems.ref~Constraint", "Constraint.$lastpos", "Constraint.$lastlist"]
 
 _G = ["inv_blk()", "all_wf()"]
 _SOLVER_OK = ["self.cs is not None and self.inactive is not None and self.bs is not None and self.cs is not self.inactive",
               "nonnull(self.cs) and nonnull(self.inactive)"]
+_SOLVER_PRE = ["self.cs is not None and self.inactive is not None and self.cs is not self.inactive", _SOLVER_OK[1]]
 
 CONTRACTS.update({
     # ---- assumed (tier T2, driver c05): the recursive split machinery ------------------------------------------------
@@ -309,6 +380,7 @@ CONTRACTS.update({
         "requires": _G + ["inactive is not None", "nonnull(inactive)"],
         "modifies": RESTRUCT + CLISTS, "allocates": ["Block", "PositionStats", "list"],
         "ensures": _G + [
+            "blocks_kept()",
             "len(inactive) >= old(len(inactive)) and nonnull(inactive)",
             "forall(lambda j: implies(0 <= j < old(len(inactive)), inactive[j] is old(inactive[j])))",
             # a constraint is only ever DE-activated here, and then it is appended to `inactive`
@@ -324,7 +396,7 @@ CONTRACTS.update({
         "props": ["C05", "C01"], "mode": "assume", "why": "verified separately when Blocks.merge is under contract; assumed at this call site",
         "requires": _G + ["c is not None and not c.active", "c.left.block is not c.right.block"],
         "modifies": RESTRUCT,
-        "ensures": _G + ["c.active",
+        "ensures": _G + ["c.active", "blocks_kept()",
                          "forall(lambda d: implies(d is not c, d.active == old(d.active)), 'ref:Constraint')"],
     },
     "vpsc.Blocks.insert": {"props": ["C05", "C01"], "mode": "assume", "why": "list bookkeeping only",
@@ -340,10 +412,10 @@ CONTRACTS.update({
         "props": ["C05", "C01"], "mode": "assume", "why": "recursion (findMinLMBetween, populateSplitBlock)",
         "requires": _G, "modifies": RESTRUCT, "allocates": ["Block", "PositionStats", "list"],
         "returns_cases": [
-            {"returns": "none", "ensures": ["unchanged('Constraint.active', 'Variable.offset', 'Variable.block', 'Block.ps', 'Block.posn', 'PositionStats.scale')"]},
+            {"returns": "none", "ensures": ["blocks_kept()", "unchanged('Constraint.active', 'Variable.offset', 'Variable.block', 'Block.ps', 'Block.posn', 'PositionStats.scale')"]},
             {"returns": lambda E, Q: Q.new("dict", {"constraint": E.sym("split_c", "ref:Constraint"), "lb": E.sym("split_lb", "ref:Block"),
                                                     "rb": E.sym("split_rb", "ref:Block")}),
-             "ensures": _G + ["isa(result['constraint'], 'Constraint') and old(alloc(result['constraint']))",
+             "ensures": _G + ["blocks_kept()", "isa(result['constraint'], 'Constraint') and old(alloc(result['constraint']))",
                               "old(result['constraint'].active) and not result['constraint'].active",
                               "forall(lambda d: implies(d is not result['constraint'], d.active == old(d.active)), 'ref:Constraint')",
                               "result['lb'] is not None and result['rb'] is not None",
@@ -353,9 +425,14 @@ CONTRACTS.update({
     },
     "vpsc.Blocks.__init__": {
         "props": ["C05", "C01"], "mode": "assume", "why": "constructor loop building one block per variable (bounded only)",
-        "requires": ["forall(lambda c: implies(isa(c, 'Constraint'), not c.active), 'ref:Constraint')"],
-        "modifies": RESTRUCT, "returns": "none", "allocates": ["Block", "PositionStats", "list"],
-        "ensures": _G + ["forall(lambda c: implies(isa(c, 'Constraint'), not c.active), 'ref:Constraint')"],
+        "requires": ["vs is not None", "inv_blk()", "all_prewf(vs)"],
+        "returns": "none", "allocates": ["Block", "PositionStats", "list"],
+        # one block per variable of vs; no constraint is touched.  inv_blk survives because the variables of vs carry no
+        # ACTIVE constraint when a solver is new (satisfy requires own_inactive(self) in that case)
+        "modifies": RESTRUCT + ["Blocks.vs"],
+        "ensures": ["inv_blk()", "all_wf()", "unchanged('Constraint.active')", "self.vs is vs", "self._list is not None",
+                    "implies(forall(lambda i: implies(0 <= i < len(vs), vs[i] is not None and vs[i].scale > 0)), vars_in_blocks(vs))",
+                    "blocks_kept()"],
     },
     "vpsc.Blocks.cost": {
         "props": ["C05"], "mode": "assume", "why": "sum over the block partition (bounded only)",
@@ -364,20 +441,29 @@ CONTRACTS.update({
     "vpsc.Solver.satisfy": {
         "props": ["C05", "C01", "C03"], "heap": True,
         "params": {"self": "ref:Solver"},
-        "requires": _G + _SOLVER_OK + ["inv_cs_except(self, None)"],
-        "modifies": RESTRUCT + CLISTS + ["Constraint.unsatisfiable"],
+        "requires": ["inv_blk()", "inv_cs_except(self, None)", _SOLVER_PRE[0], _SOLVER_PRE[1],
+                     "self.vs is not None and forall(lambda i: implies(0 <= i < len(self.vs), self.vs[i] is not None and self.vs[i].scale > 0))",
+                     "implies(self.bs is not None, vars_in_blocks(self.vs))",
+                     # either the blocks exist and every constraint is well-formed, or this is a new solver whose
+                     # constraints are inactive and whose variables are about to get their blocks
+                     "(self.bs is not None and all_wf()) or (self.bs is None and self.vs is not None and all_prewf(self.vs) and own_inactive(self))"],
+        "modifies": RESTRUCT + CLISTS + ["Constraint.unsatisfiable", "Solver.bs", "Blocks.vs"],
         "loops": {0: {
             "locals": {"v": "ref:Constraint", "lb": "ref:Block", "rb": "ref:Block"},
             "modifies": RESTRUCT + CLISTS + ["Constraint.unsatisfiable"], "allocates": ["Block", "PositionStats", "list"],
             "inv": [("G1_inv_blk", "inv_blk()"), ("G2_all_wf", "all_wf()"),
                     ("G5_solver", _SOLVER_OK[0]), ("G5_nonnull", _SOLVER_OK[1]),
+                    ("G6_vars_in_blocks", "self.vs is not None and vars_in_blocks(self.vs)"),
+                    ("G7_cs_kept", "len(self.cs) == old(len(self.cs)) and forall(lambda i: implies(0 <= i < len(self.cs), self.cs[i] is old(self.cs[i])))"),
                     ("v_typed", "v is None or isa(v, 'Constraint')"),
                     ("G3_inv_cs", "inv_cs_except(self, v)"),
                     ("G3b_inv_cs_when_kept", "v is None or (cslack(v) < %s and not v.active) or inv_cs_except(self, None)" % ZB),
                     ("G4_most_violated", "most_violated(self, v)")]}},
         "ensures": [("exit.feasible", "feasible(self)"),
                     ("inv_blk", "inv_blk()"), ("all_wf", "all_wf()"), ("inv_cs", "inv_cs_except(self, None)"),
-                    ("solver_ok", " and ".join(_SOLVER_OK))],
+                    ("solver_ok", " and ".join(_SOLVER_OK)),
+                    ("vars_in_blocks", "self.vs is not None and vars_in_blocks(self.vs)"),
+                    ("cs_kept", "len(self.cs) == old(len(self.cs)) and forall(lambda i: implies(0 <= i < len(self.cs), self.cs[i] is old(self.cs[i])))")],
     },
 })
 
@@ -387,7 +473,7 @@ def cost_of_state(E, P, ctx):
     block partition is bounded-only, driver c05); used to state 'the reported cost is the cost of the reported positions'"""
     keys = ["Variable.offset", "Variable.block", "Variable.scale", "Variable.weight", "Variable.desiredPosition",
             "Block.posn", "Block.ps", "Block.vars", "PositionStats.scale", "Blocks._list",
-            "list.len.ref~Variable", "list.elems.ref~Variable", "list.len.ref~Block", "list.elems.ref~Block"]
+            "list.len.ref~Variable@vars", "list.elems.ref~Variable@vars", "list.len.ref~Block", "list.elems.ref~Block"]
     arrs = []
     for k in keys:
         if k.startswith("list.len."):
@@ -406,7 +492,8 @@ def cost_of_state(E, P, ctx):
 SPECFUNS["cost_of_state"] = cost_of_state
 CONTRACTS["vpsc.Blocks.cost"]["ensures"] = ["result == cost_of_state()"]
 
-_SAT_POST = ["feasible(self)", "inv_blk()", "all_wf()", "inv_cs_except(self, None)"] + _SOLVER_OK
+_CS_KEPT = "len(self.cs) == old(len(self.cs)) and forall(lambda i: implies(0 <= i < len(self.cs), self.cs[i] is old(self.cs[i])))"
+_SAT_POST = ["feasible(self)", "inv_blk()", "all_wf()", "inv_cs_except(self, None)"] + _SOLVER_OK + ["self.vs is not None and vars_in_blocks(self.vs)", _CS_KEPT]
 CONTRACTS["vpsc.Solver.solve"] = {
     "props": ["C05", "C01", "C03"], "heap": True,
     "params": {"self": "ref:Solver"},
@@ -414,11 +501,34 @@ CONTRACTS["vpsc.Solver.solve"] = {
     "modifies": CONTRACTS["vpsc.Solver.satisfy"]["modifies"], "allocates": ["Block", "PositionStats", "list"],
     "loops": {0: {"locals": {"lastcost": "real", "cost": "real"},
                   "modifies": CONTRACTS["vpsc.Solver.satisfy"]["modifies"], "allocates": ["Block", "PositionStats", "list"],
-                  "inv": [(n, e) for n, e in zip(["feasible", "inv_blk", "all_wf", "inv_cs", "solver_ok", "nonnull"], _SAT_POST)]
+                  "inv": [(n, e) for n, e in zip(["feasible", "inv_blk", "all_wf", "inv_cs", "solver_ok", "nonnull", "vars_in_blocks", "cs_kept"], _SAT_POST)]
                   + [("cost_is_current", "cost == cost_of_state()")]}},
     "ensures": [("feasible", "feasible(self)"),
-                ("cost_of_reported_positions", "result == cost_of_state()")],
+                ("cost_of_reported_positions", "result == cost_of_state()"),
+                ("vars_in_blocks", "self.vs is not None and vars_in_blocks(self.vs)"),
+                ("inv_blk", "inv_blk()"), ("all_wf", "all_wf()"), ("cs_kept", _CS_KEPT)],
+    "returns": "real",
 }
 # satisfy is used through its contract at solve's call sites
 CONTRACTS["vpsc.Solver.satisfy"]["allocates"] = ["Block", "PositionStats", "list"]
 CONTRACTS["vpsc.Solver.satisfy"]["returns"] = "none"
+
+
+# Solver.__init__: assumed (simple loops; bounded only for now).  It hands the solver the caller's lists, copies cs into
+# `inactive` (same positions) and de-activates every constraint of cs.
+CONTRACTS["vpsc.Solver.__init__"] = {
+    "props": ["C05", "C01"], "mode": "assume", "why": "constructor loops over vs and cs (bounded only)",
+    "requires": ["vs is not None and cs is not None", "nonnull(cs)",
+                 "forall(lambda j: implies(0 <= j < len(cs), lastpos(cs[j]) == j))"],
+    "modifies": ["Solver.vs", "Solver.cs", "Solver.inactive", "Solver.bs", "Constraint.active", "Variable.cIn", "Variable.cOut",
+                 "list.len.ref~Constraint", "list.elems.ref~Constraint", "list.len.ref~Constraint@adj", "list.elems.ref~Constraint@adj"],
+    "allocates": ["list"], "returns": "none",
+    "ensures": ["self.vs is vs and self.cs is cs and self.bs is None",
+                "self.inactive is not None and self.inactive is not cs and fresh(self.inactive)",
+                "len(self.inactive) == len(cs) and len(cs) == old(len(cs))",
+                "forall(lambda j: implies(0 <= j < len(cs), cs[j] is old(cs[j]) and self.inactive[j] is cs[j]))",
+                "own_inactive(self)",
+                # constraints of other solvers keep their state
+                "forall(lambda c: implies(old(alloc(c)) and c.active, old(c.active)), 'ref:Constraint')",
+                "forall(lambda c: implies(old(alloc(c)) and old(c.active) and not c.active, exists(lambda j: 0 <= j < len(cs) and cs[j] is c)), 'ref:Constraint')"],
+}
